@@ -644,6 +644,8 @@ class Model:
         if ast.unparse(e.func) in ("collections.defaultdict", "defaultdict") and len(e.args) == 1 and not e.keywords \
                 and isinstance(e.args[0], ast.Name) and e.args[0].id in ("set", "list"):
             return pyv(("emptydict", e.args[0].id))        # typed by the contract's `locals` entry at the assignment; default factory remembered there
+        if ast.unparse(e.func) in ("collections.OrderedDict", "OrderedDict") and not e.args and not e.keywords:
+            return pyv(("emptydict",))                     # an empty insertion-ordered mapping (dict order is insertion order in the model anyway)
         r = self.defaultdict_update(ex, e, st)
         if r is not None:
             return r
@@ -1270,6 +1272,8 @@ class Model:
             state.env["_k"] = V(kterm, INT)
             state.env["_k" + ordinal] = V(kterm, INT)
             state.env["_n"] = V(n, INT)
+            state.env["_seq"] = seq                      # ghost name of the iterated sequence (for iterables that are not a re-evaluable expression)
+            state.env["_seq" + ordinal] = seq
             ts = []
             for i, e in enumerate(invs):
                 t, extra, _ = self.eval_spec(ex, e, state.env, state)
